@@ -15,12 +15,11 @@ from . import core, tlc
 def main():
     ap = argparse.ArgumentParser()
     ap.add_argument("prop")
-    ap.add_argument("--tier", default=os.environ.get("VERIF_TIER") or "quick",
-                    choices=["quick", "thorough"])
+    ap.add_argument("--tier", default=None, choices=["quick", "thorough"])
     ap.add_argument("--replay")
     a = ap.parse_args()
-    if os.environ.get("VERIF_TIER") in ("quick", "thorough"):
-        a.tier = os.environ["VERIF_TIER"]
+    if a.tier is None:          # an explicit --tier wins; VERIF_TIER is only the default
+        a.tier = os.environ["VERIF_TIER"] if os.environ.get("VERIF_TIER") in ("quick", "thorough") else "quick"
     seed = int(os.environ.get("VERIF_SEED", "0") or 0)
     core.repo_on_path()
     try:
@@ -31,17 +30,31 @@ def main():
         return 2
     ctx = core.Ctx(a.prop.upper(), a.tier, seed)
     try:
-        if a.replay:
+        if a.replay and core.load_replay(a.replay).get("mode") == "escape":
+            rc = mod.run(ctx)           # an exception that escaped from the library: the whole check is the replay
+        elif a.replay:
             rc = mod.replay(ctx, a.replay)
         else:
             rc = mod.run(ctx)
     except tlc.MachineryError as ex:
         print("MACHINERY-FAILURE property=%s: %s" % (a.prop, ex))
         rc = 2
-    except Exception:
+    except Exception as ex:
         traceback.print_exc()
-        print("MACHINERY-FAILURE property=%s: unexpected exception in the harness" % a.prop)
-        rc = 2
+        from .hdreplay import raised_in_library
+        if raised_in_library(ex) and not a.replay:
+            # The exception was raised INSIDE the code under test and nothing in the harness expected it: on the
+            # unchanged tree no call made by this check raises unexpectedly, so the library's behaviour changed on an
+            # input the check relies on.  Reported as a violation (with the traceback) rather than as a machinery fault.
+            tb = traceback.extract_tb(ex.__traceback__)[-1]
+            ctx.violation("library-exception", type(ex).__name__,
+                          "%r raised at %s:%d during a call the check expects to succeed" % (ex, os.path.basename(tb.filename), tb.lineno),
+                          {"mode": "escape", "traceback": traceback.format_exc()[-3000:]})
+            rc = ctx.finish("model_checking", rule="run aborted by an unexpected exception inside the library", assumptions=[],
+                            trusted_base=[], checker_cmd="./check %s --tier %s" % (a.prop.upper(), a.tier))
+        else:
+            print("MACHINERY-FAILURE property=%s: unexpected exception in the harness" % a.prop)
+            rc = 2
     finally:
         tlc.cleanup()
     return rc
